@@ -3531,6 +3531,7 @@ func (r *Resolver) recordResolutionZoneFailure(ctx context.Context, q dns.Questi
 	if zone == "" ||
 		middleware.IsBestEffortRecursionWork(ctx) ||
 		contextutil.EffectiveError(ctx) != nil ||
+		middleware.RecursionWorkEnforcementError(ctx) != nil ||
 		errors.Is(cause, context.Canceled) ||
 		errors.Is(cause, context.DeadlineExceeded) ||
 		errors.Is(cause, middleware.ErrRecursionWorkLimit) ||
